@@ -21,7 +21,7 @@ ASSUMPTIONS = [
 ]
 RED = ops.RED + ["var", "std"]
 OPS = RED * 3 + ops.CUM + ops.ROLL + ops.SHIFT + ["ema"] + ops.SEL
-N_CASES = {"quick": 260, "thorough": 6000}
+N_CASES = {"quick": 260, "thorough": 2400}
 REAL_N = [999_999, 1_000_000, 1_000_001, 2_000_000, 3_000_000, 4_000_001]
 
 
